@@ -71,12 +71,12 @@ package redblacktree
 //@   ensures [C01 C17 C18] (result != nil) == Has(tree, key) && (result != nil ==> result == tree.nodes[tree.rank[key]])
 
 //@ func Tree.Empty
-//@   requires Inv(tree)
+//@   requires ShapeInv(tree)
 //@   modifies nothing
 //@   ensures [C15 C17 C18] result == (tree.size == 0)
 
 //@ func Tree.Size
-//@   requires Inv(tree)
+//@   requires ShapeInv(tree)
 //@   modifies nothing
 //@   ensures [C01 C15 C17 C18] result == tree.size && result >= 0
 
